@@ -2,8 +2,8 @@ package rules
 
 import (
 	"fmt"
-	"go/types"
 	"go/token"
+	"go/types"
 	"sort"
 	"strings"
 
